@@ -244,7 +244,7 @@ class Sched:
         self.done_evt.wait(30)
         # give aborted threads a moment to unwind
         for t in self.threads:
-            t.os_thread.join(2.0 if self.aborting else 5.0)
+            t.os_thread.join(5.0 if self.aborting else 10.0)
         leaked = [t.name for t in self.threads if t.os_thread.is_alive()]
         if not self.done_evt.is_set() and self.status == "running":
             self.status = "stuck"
